@@ -2,6 +2,7 @@ package main
 
 import (
 	"fmt"
+	"sort"
 	"go/ast"
 	"go/constant"
 	"go/token"
@@ -83,7 +84,7 @@ func (t *tr) resolveType(e ast.Expr, pkg *packages.Package) types.Type {
 		}
 	case *ast.SelectorExpr:
 		if id, ok := x.X.(*ast.Ident); ok {
-			if p := t.V.importedPkg(pkg, id.Name); p != nil {
+			if p := t.V.importedPkg(pkg, id.Name, x.Sel.Name); p != nil {
 				if o := p.Types.Scope().Lookup(x.Sel.Name); o != nil {
 					if tn, ok := o.(*types.TypeName); ok {
 						return tn.Type()
@@ -124,22 +125,43 @@ func (t *tr) resolveType(e ast.Expr, pkg *packages.Package) types.Type {
 	return nil
 }
 
-func (v *Verifier) importedPkg(pkg *packages.Package, name string) *packages.Package {
+// importedPkg resolves a package qualifier. When several packages share the name (std errors vs
+// grailbio/base/errors), the one that declares `member` is chosen; ties are broken by path (deterministic).
+func (v *Verifier) importedPkg(pkg *packages.Package, name string, member string) *packages.Package {
+	var cands []*packages.Package
 	if pkg != nil {
 		for _, ip := range pkg.Imports {
 			if ip.Name == name {
-				return ip
+				cands = append(cands, ip)
 			}
 		}
 		if pkg.Name == name {
-			return pkg
+			cands = append(cands, pkg)
 		}
 	}
-	// fall back: any loaded package with that name (contracts may mention packages the code does not import)
-	if p, ok := v.PkgByName[name]; ok {
-		return p
+	if len(cands) == 0 {
+		// contracts may mention packages the code does not import
+		for _, p := range v.Pkgs {
+			if p.Name == name {
+				cands = append(cands, p)
+			}
+		}
 	}
-	return nil
+	sort.Slice(cands, func(i, j int) bool { return cands[i].PkgPath < cands[j].PkgPath })
+	var best *packages.Package
+	for _, c := range cands {
+		if c.Types == nil {
+			continue
+		}
+		has := member == "" || c.Types.Scope().Lookup(member) != nil
+		if has && (best == nil || (strings.HasPrefix(c.PkgPath, "github.com/grailbio/") && !strings.HasPrefix(best.PkgPath, "github.com/grailbio/"))) {
+			best = c
+		}
+	}
+	if best == nil && len(cands) > 0 {
+		best = cands[0]
+	}
+	return best
 }
 
 func (t *tr) globalVar(o *types.Var) *Var {
@@ -418,7 +440,7 @@ func (t *tr) specSelector(x *ast.SelectorExpr, sc *specCtx) Term {
 				}
 			}
 			if !isLocal {
-				if p := t.V.importedPkg(sc.pkg, id.Name); p != nil && (sc.pkg == nil || sc.pkg.Types.Scope().Lookup(id.Name) == nil) {
+				if p := t.V.importedPkg(sc.pkg, id.Name, x.Sel.Name); p != nil && (sc.pkg == nil || sc.pkg.Types.Scope().Lookup(id.Name) == nil) {
 					o := p.Types.Scope().Lookup(x.Sel.Name)
 					if o == nil {
 						return t.specErr(sc, "unknown %s.%s", id.Name, x.Sel.Name)
